@@ -745,6 +745,30 @@ def reader_rules(ctx, classes, table_is_mapping=True):
                                     c[3][1][2][2] == 'get' and
                                     kind(c[3][1][2][1]) == 'dict')):
                         okf = True
+                        # ... through a table that knows EVERY field code of
+                        # the specification: whatever the message type, a
+                        # known field that is present is restored
+                        nm = c[3][1]
+                        base = nm[1] if kind(nm) == 'sub' else nm[2][1]
+                        okt, tb = try_py(base)
+                        if okt and isinstance(tb, dict):
+                            cover = all(tb.get(k) == v[0] for k, v in
+                                        spec.HEADER_FIELDS.items())
+                        elif okt and isinstance(tb, (list, tuple)):
+                            cover = all(k < len(tb) and tb[k] == v[0]
+                                        for k, v in
+                                        spec.HEADER_FIELDS.items())
+                        else:
+                            cover = False
+                        ctx.ob('C03.D3', q, 'restores-fields-of-every-code',
+                               cover,
+                               'the attribute name a header field is stored '
+                               'under comes from %s, not from a constant '
+                               'table of all field codes of the '
+                               'specification: a known field the table does '
+                               'not list for this message (UNIX_FDS on a '
+                               'reply, say) is dropped on parsing'
+                               % term_str(base)[:80])
         ctx.ob('C03.D3', q, 'restores-fields', okf,
                'every (code, value) of header slot 6 must be stored on the '
                'message under _hcode[code]')
